@@ -125,6 +125,10 @@ func textConfig(rng *rand.Rand, legacy bool) gmars.SimulatorConfig {
 		} else if c.Mode == gmars.ICWS88 {
 			c.Mode = gmars.ICWS94
 		}
+		if rng.Intn(50) == 0 && !bigCores {
+			// readers and assembler allocate no process queue: any process limit is a valid one
+			c.Processes = gmars.Address([]uint64{1 << 31, 1<<31 + 5, 1 << 40, 1<<31 - 1}[rng.Intn(4)])
+		}
 		return c
 	}
 }
